@@ -45,7 +45,7 @@ def build(tier):
     mt = Fn('morethuente_do_get', 'src/lsearchk/morethuente.cpp', 'do_get', flt='lsearchk_morethuente_t::do_get', **mt_common)
     targets = [
         Target('morethuente_do_get', [mt, dc, upd()], H, replace=['lsearchk_update']),
-        Target('lsearchk_get', [get, upd(), hd()], H, replace=['lsearchk_update', 'lsearchk_do_get']),
+        Target('lsearchk_get', [get, upd(), hd()], H, replace=['lsearchk_update', 'lsearchk_do_get'], cbmc_flags=['--sat-solver', 'cadical']),
         Target('lsearchk_update', [upd()], H),
         Target('state_has_descent', [hd()], H),
         Target('backtrack_do_get', [bt, upd()], H, replace=['lsearchk_update']),
@@ -57,14 +57,13 @@ def build(tier):
     targets += cgd.targets(COMMON, upd, hd)
     import pred_smt
     import step_smt
-    vcs, fns = pred_smt.build()
-    svcs, sfns = step_smt.build()
-    vcs += svcs
-    fns += sfns
     import adv_smt
-    avcs, afns = adv_smt.build()
-    vcs += avcs
-    fns += afns
+    # the three groups of SMT obligations are built concurrently (each runs clang on its own translation units)
+    from concurrent.futures import ThreadPoolExecutor
+    with ThreadPoolExecutor(max_workers=3) as ex:
+        parts = [f.result() for f in [ex.submit(pred_smt.build), ex.submit(step_smt.build), ex.submit(adv_smt.build)]]
+    vcs = [v for pv, _ in parts for v in pv]
+    fns = [f for _, pf in parts for f in pf]
     return {
         'targets': targets, 'vcs': vcs, 'functions': fns,
         'decided': ['backtrack / LeMarechal / Fletcher(+zoom): success => advertised predicates were evaluated true on the current trial point with the returned step, and the state is the valid evaluation at x0+t*d; loops terminate (variant max_iterations - i)'],
